@@ -661,7 +661,15 @@ def run_real(case: dict) -> Outcome:
 
             async def send_all() -> None:
                 for i in range(nsends):
-                    data = bytes([65 + i]) * chunk
+                    data: Any = bytes([65 + i]) * chunk
+                    if case.get("view") == "Q" and case.get("api") != "iterable":
+                        # the same bytes as a memoryview with 8-byte items (array / numpy / struct views): send_all() is
+                        # typed bytes | bytearray | memoryview
+                        import array
+
+                        arr = array.array("Q")
+                        arr.frombytes(data[: chunk - chunk % 8])
+                        data = memoryview(arr)
                     if case.get("api") == "iterable":
                         step = chunk // 16
                         await transport.send_all_from_iterable([data[o : o + step] for o in range(0, chunk, step)])
@@ -709,6 +717,8 @@ def run_real(case: dict) -> Outcome:
             result["final_buffer"] = aio_transport.get_write_buffer_size()
             await asyncio.get_running_loop().run_in_executor(None, done_reading.wait, 10.0)
             result["received"] = len(received)
+            if case.get("view") == "Q" and case.get("api") != "iterable":
+                chunk -= chunk % 8
             result["content_ok"] = bytes(received) == b"".join(bytes([65 + i]) * chunk for i in range(nsends))
             await transport.aclose()
         finally:
@@ -751,6 +761,7 @@ def st_real(tier: str):  # type: ignore[no-untyped-def]
             "iterations": st.sampled_from([50, 100, 200]),
             "sndbuf": st.sampled_from([0, 65536]),
             "api": st.sampled_from(["send_all", "send_all", "send_all", "iterable"]),
+            "view": st.sampled_from(["bytes", "bytes", "Q"]),
         }
     )
 
